@@ -173,19 +173,6 @@ Definition sort_abs_pcell (c : pcell) : pcell :=
     (pc_layout c).
 Definition sort_abs (P : plib) : plib :=
   mkplib (pb_domain P) (pb_units P) (map sort_abs_pcell (pb_cells P)) (pb_author P).
-(** every hash map of the library lists its layers in ascending key order *)
-Fixpoint ascending (l : list nat) : bool :=
-  match l with
-  | a :: ((b :: _) as r) => Nat.ltb a b && ascending r
-  | _ => true
-  end.
-Definition abs_key_orderedb (L : library) : bool :=
-  forallb (fun c => match c_abs c with
-                    | None => true
-                    | Some a => forallb (fun p => ascending (map fst (ap_shapes p))) (ab_ports a) &&
-                                ascending (map fst (ab_blockages a))
-                    end) (lib_cells L).
-
 (** * deciders for the specification *)
 Definition celem_eqb (a b : celem) : bool :=
   (ce_layer a =? ce_layer b) && (ce_purpose a =? ce_purpose b) &&
@@ -333,23 +320,43 @@ Definition pls_abs_canonb (ly0 : layers) (p : purpose) (ls : playershapes) : boo
               end
   | None => false
   end.
-Definition plss_abs_canonb (ly0 : layers) (p : purpose) (lss : list playershapes) : bool :=
+(** [sorted] = false: the clauses of [plss_abs_canon] with "distinct layer numbers" in place of
+    "ascending keys" (a message that can come back equal only up to the order of these lists) *)
+Fixpoint ascending_keysb (l : list (option nat)) : bool :=
+  match l with
+  | a :: r => match r with
+              | b :: _ => match a, b with Some x, Some y => Nat.ltb x y | _, _ => false end
+              | [] => true
+              end && ascending_keysb r
+  | [] => true
+  end.
+Definition plss_abs_canonb (sorted : bool) (ly0 : layers) (p : purpose) (lss : list playershapes) : bool :=
   forallb (pls_abs_canonb ly0 p) lss &&
-  nodupb (option_eqb Z.eqb) (map (fun ls => option_map pl_number (pls_layer ls)) lss).
+  (if sorted then ascending_keysb (map (pls_key ly0) lss)
+   else nodupb (option_eqb Z.eqb) (map (fun ls => option_map pl_number (pls_layer ls)) lss)).
 Definition playout_canonb (l : playout) : bool :=
-  forallb (fun i => (0 <=? pi_rot i) && (pi_rot i <? 360)) (ply_insts l) &&
   forallb (fun ls => pls_canonb ls && pls_nonemptyb ls) (ply_shapes l) &&
   nodupb (option_eqb lp_eqb) (map pls_lp (ply_shapes l)).
-Definition pabs_canonb (ly0 : layers) (a : pabstract) : bool :=
+Definition pabs_canonb (sorted : bool) (ly0 : layers) (a : pabstract) : bool :=
   match pab_outline a with Some o => String.eqb (pg_net o) EmptyString | None => false end &&
-  forallb (fun p => plss_abs_canonb ly0 Pin (pap_shapes p)) (pab_ports a) &&
-  plss_abs_canonb ly0 Obstruction (pab_blockages a).
-Definition pcell_canonb (ly0 : layers) (c : pcell) : bool :=
+  forallb (fun p => plss_abs_canonb sorted ly0 Pin (pap_shapes p)) (pab_ports a) &&
+  plss_abs_canonb sorted ly0 Obstruction (pab_blockages a).
+Definition pcell_canonb (sorted : bool) (ly0 : layers) (c : pcell) : bool :=
   negb (pc_circuit c) &&
   match pc_layout c with Some l => playout_canonb l | None => true end &&
-  match pc_abs c with Some a => pabs_canonb ly0 a | None => true end.
+  match pc_abs c with Some a => pabs_canonb sorted ly0 a | None => true end.
+(** [canonicalb] decides [canonical]; [canonical_unsortedb] is the same without the order of
+    the abstract layer lists *)
 Definition canonicalb (ly0 : layers) (P : plib) : bool :=
-  negb (pb_author P) && forallb (pcell_canonb ly0) (pb_cells P).
+  negb (pb_author P) && forallb (pcell_canonb true ly0) (pb_cells P).
+Definition canonical_unsortedb (ly0 : layers) (P : plib) : bool :=
+  negb (pb_author P) && forallb (pcell_canonb false ly0) (pb_cells P).
+(** [proto_typed] *)
+Definition typedb (P : plib) : bool :=
+  forallb (fun c => match pc_layout c with
+                    | Some l => forallb (fun i => i32_okb (pi_rot i)) (ply_insts l)
+                    | None => true
+                    end) (pb_cells P).
 
 (** distinct layer numbers inside every port and inside the blockages *)
 Definition abs_distinctb (P : plib) : bool :=
@@ -407,9 +414,10 @@ Definition agrees {A : Type} (eqb : A -> A -> bool) (m : res A) (i : ires A) : b
 Definition code (prop_ok model_eq : bool) : Z :=
   if negb prop_ok then 2 else if model_eq then 0 else 1.
 
-(** op "raw": L -> to_proto -> from_proto ly0. *)
-Definition check_raw (L : library) (ly0 : layers) (probes : list Z) (rP : ires plib) (rL2 : ires library) : Z :=
-  let mP := to_proto L in
+(** op "raw": L -> to_proto -> from_proto ly0.  [rep]: which exporter the tree under test has
+    (true = with the rotation repair, false = as found), read from the source on every run. *)
+Definition check_raw (rep : bool) (L : library) (ly0 : layers) (probes : list Z) (rP : ires plib) (rL2 : ires library) : Z :=
+  let mP := to_proto_v rep L in
   let eq1 := agrees plib_eqb mP rP in
   let eq2 := match rP with
              | IOk P => agrees (library_eqb probes) (from_proto ly0 P) rL2
@@ -432,14 +440,12 @@ Definition check_raw (L : library) (ly0 : layers) (probes : list Z) (rP : ires p
      else true) in
   code prop_ok (eq1 && eq2 && eq3).
 
-(** op "proto": P -> from_proto ly0 -> to_proto.  The impl's library [L] is printed with its
-    hash maps in ascending key order, so [abs_key_orderedb L] is meaningful only through the
-    MODEL's import result, which keeps the message's order. *)
-Definition check_proto (P : plib) (ly0 : layers) (probes : list Z) (rL : ires library) (rP2 : ires plib) : Z :=
+(** op "proto": P -> from_proto ly0 -> to_proto. *)
+Definition check_proto (rep : bool) (P : plib) (ly0 : layers) (probes : list Z) (rL : ires library) (rP2 : ires plib) : Z :=
   let mL := from_proto ly0 P in
   let eq1 := agrees (library_eqb probes) mL rL in
   let eq2 := match rL with
-             | IOk L => agrees plib_eqb (to_proto L) rP2
+             | IOk L => agrees plib_eqb (to_proto_v rep L) rP2
              | _ => match rP2 with INotRun => true | _ => false end
              end in
   let prop_ok :=
@@ -456,12 +462,12 @@ Definition check_proto (P : plib) (ly0 : layers) (probes : list Z) (rL : ires li
                else true
     | _ => true
     end &&
-    (* cells listed before their users + canonical: the same message comes back *)
-    (if deps_firstb P && canonicalb ly0 P && layers_wfb ly0 then
+    (* cells listed before their users + canonical: the same message comes back; when only the
+       order of the layer lists of an abstract is not the exporter's: the same up to that order *)
+    (if deps_firstb P && canonical_unsortedb ly0 P && typedb P && layers_wfb ly0 then
        match rL with
        | IOk L => match rP2 with
-                  | IOk P2 => if match mL with Ok Lm => abs_key_orderedb Lm | _ => false end
-                              then plib_eqb P P2 else plib_eqb (sort_abs P) (sort_abs P2)
+                  | IOk P2 => if canonicalb ly0 P then plib_eqb P P2 else plib_eqb (sort_abs P) (sort_abs P2)
                   | _ => false
                   end
        | _ => negb (importableb P)
